@@ -32,7 +32,8 @@ CLAIMED["C11"] = ("model_checking",
     "qs_domain under a cooperative scheduler, together with random schedules of 2-6 agents; each recorded "
     "trace is validated against the algorithm-independent property-layer trace spec QsTrace.tla; executions end with a fair "
     "drain (every online agent keeps quiescing, every online owner keeps calling run()): a callback that has not run after "
-    "eight complete rounds is a rejection. spec/Apalache/QsInd.tla gives the whole-call protocol an inductive invariant that "
+    "eight complete rounds is a rejection. Rare branches are driven on purpose: TLC refutes 'the CAS on the desired counter never fails short of its target' "
+    "(2 agents, 3 nodes) and each counterexample history is replayed on the real code with the fair drain (rare-branch witnesses). spec/Apalache/QsInd.tla gives the whole-call protocol an inductive invariant that "
     "Apalache discharges for an UNBOUNDED period counter (4 agents, 3 nodes, negative control); it is bound to the code by "
     "whole-call conformance: every call of TLC-generated and long random call sequences on the real domain must be the QsInd "
     "action with exactly the logged private state, and every reached state must satisfy the invariant (mismatches are "
